@@ -392,6 +392,10 @@ class Wtp:
             temp_file.close()
 
         if self.backup_db_path.exists():
+            # SQLite would replay a "-wal" file left by a killed process over
+            # the restored file: remove the side files before restoring
+            for suffix in ("-wal", "-shm"):
+                self.db_path.with_name(self.db_path.name + suffix).unlink(True)
             self.db_path.unlink(True)
             self.backup_db_path.rename(self.db_path)
 
@@ -418,12 +422,16 @@ class Wtp:
         return self.db_path.with_stem(self.db_path.stem + "_backup")
 
     def backup_db(self) -> None:
-        self.backup_db_path.unlink(True)
         self.db_conn.commit()
-        backup_conn = sqlite3.connect(self.backup_db_path)
+        # `create_db()` restores whatever file has the backup name: write the
+        # copy under a temporary name and rename it once it is complete
+        temp_path = self.backup_db_path.with_suffix(".tmp")
+        temp_path.unlink(True)
+        backup_conn = sqlite3.connect(temp_path)
         with backup_conn:
             self.db_conn.backup(backup_conn)
         backup_conn.close()
+        temp_path.replace(self.backup_db_path)
 
     def close_db_conn(self) -> None:
         assert self.db_path
